@@ -26,6 +26,11 @@ CHECKS = {
    text="(a) decoders of all 58 wire/storage types: every proto-level value within 1 (quick) / 2 (thorough) field deviations of the samples without any well-formedness filter, every truncation and every single-byte substitution from {00,01,7f,80,ff} of every sample encoding; (b) connection stages through the real entry points over a scripted in-memory transport: frame::recv_proto (length prefixes {0,1,max,max+1,..,2^32-1} x truncated bodies), preface::accept and the noise handshake (messages of every listed length), noise transport frames after a genuine handshake, mux handshakes announcing 0..2^32-1 streams (differential allocation bound against a peer announcing exactly our limits), and every mux frame header (all 65536 in thorough, a 1800-element cover in quick) x 3 reusable-stream states x DATA lengths through the real Mux::run. Oracle: no panic (catch_unwind), entry point returns, per-case allocation within the stated bound (counting allocator).",
    note="The node is built with panic=abort, the harness with panic=unwind so that panics are observable; release arithmetic (overflow checks off). Well-signed absurd consensus messages through the replica (design part c) are covered by the C05/C16 replica harness once built. Totality over all byte strings is not enumerable.",
    technique="exhaustive bounded enumeration of inputs (deviation-bounded malformed values, all truncations / byte substitutions, all mux frame headers x stream states) through the real decoders and connection stages under a panic and allocation monitor"),
+ "C13": dict(
+   category="model_checking", design="DESIGN.md §4 C13",
+   text="Stateless exploration of the real noise::Stream pair (VNoise hook) under a sequential driver whose two scripted transports answer every poll_read / poll_write / poll_flush with complete / 1 byte / half / Pending-then-wake as explorer choice points: every writer op sequence over {write 1,100,P-1,P,P+1,2P+5 bytes, flush, shutdown} (P=65519) up to length 2 (quick) / 3 (thorough) x reader buffers {1000,70000} with deviation bound 1, listed long sequences with bound 2 (quick) / 3 (thorough); oracle on every execution: bytes read are a prefix of bytes accepted by the writer, equal everything flushed once the transport is drained, EOF iff shutdown, frames on the wire well-formed, no WriteZero / stuck Pending. Then every single-point edit of the in-flight ciphertext (bit flips in length / body / tag, truncations at frame boundaries +-1, duplicated / swapped / dropped / empty frames): the reader must fail or stop after a correct prefix.",
+   note="snow (Noise NN, ChaCha20-Poly1305) is trusted; the driver is sequential (writes, then reads), back-pressure is modelled by Pending answers; handshake choice points are part of the explored space.",
+   technique="stateless model checking of the implementation: exhaustive enumeration of environment-answer sequences (deviation-bounded) for every bounded operation sequence, against a reference byte-stream model; exhaustive single-point fault (tampering) enumeration"),
  "C11": dict(
    category="exploration", design="DESIGN.md §4 C11",
    text="Exhaustive small-scope enumeration on the real Schedule::new/view_leader: every weight vector over {1,2,3} up to 4 (quick) / 5 (thorough) validators x every non-empty eligible subset x both modes x frequency {0,1,2,3,7}, unit schedule of 10, extreme weights; every view of a 2268-element boundary set; every permutation of the input list. Oracle: no panic, eligible-only, order-independent, equality with an independent reference (own Keccak call, u128 reduction), constant for frequency 0, proportional share over 2000 turns.",
